@@ -177,6 +177,9 @@ def create_case(case, d):
         os.makedirs(base); open(os.path.join(base, 'x.txt'), 'w').write('x')
     elif occ == 'file':
         open(base, 'w').write('just a file')
+    elif occ == 'danglinglink':
+        # the path exists as a symbolic link whose target does not: still an existing thing
+        os.symlink(os.path.join(outside, 'elsewhere.tar.xz'), base)
     for sp in case.get('foreign', []):
         plant(base, sp)
     before = snapshot(base) if os.path.lexists(base) else {'': ['missing']}
@@ -225,7 +228,7 @@ def create_case(case, d):
         raise ValueError(f)
     res = attempt(lambda: (call(), None)[1])
     after = snapshot(base) if os.path.lexists(base) else {'': ['missing']}
-    return dict(res=res[:2], before=before, after=after)
+    return dict(res=res[:2], before=before, after=after, outside=sorted(os.listdir(outside)))
 
 
 def bare_names(case, d):
